@@ -311,6 +311,7 @@ int cmdProbe(int argc, char** argv) {
 				int rc = forkRun(
 					[&]() -> int {
 						Out po(part);
+						size_t vi = 0;
 						for (auto& kv : synthVersions()) {
 							std::set<uint64_t> seen;
 							size_t kept = 0;
@@ -339,6 +340,7 @@ int cmdProbe(int argc, char** argv) {
 								return v;
 							};
 							size_t unstable = 0;
+							std::vector<std::vector<std::pair<int, long long>>> cands; // new-layout settings in discovery order
 							auto emit = [&](const std::vector<std::pair<int, long long>>& ov, const char* why) {
 								JArr a;
 								for (auto& q : ov) {
@@ -372,9 +374,7 @@ int cmdProbe(int argc, char** argv) {
 									}
 									if (!fresh) continue;
 									level1.push_back({ov, si.scalarKinds});
-									if (cap && kept >= cap) continue;
-									kept++;
-									emit(ov, "new layout");
+									cands.push_back(ov);
 								}
 							}
 							// second level: one later field on top of each first-level setting
@@ -397,12 +397,21 @@ int cmdProbe(int argc, char** argv) {
 											continue;
 										}
 										if (!fresh) continue;
-										if (cap && kept >= cap) continue;
-										kept++;
-										emit(ov, "new layout");
+										cands.push_back(ov);
 									}
 								}
 							}
+							// under a cap: an even spread over the settings (fields and values), starting at a different one in
+							// every version so that the versions of a type cover different settings between them
+							if (!cap || cands.size() <= cap) {
+								for (auto& c : cands) emit(c, "new layout");
+							}
+							else {
+								size_t stride = (cands.size() + cap - 1) / cap;
+								for (size_t j = vi % stride; j < cands.size(); j += stride) emit(cands[j], "new layout");
+							}
+							(void) kept;
+							vi++;
 						}
 						return 0;
 					},
